@@ -4,6 +4,7 @@
  * (read/write/close/usleep/...): raw syscalls only. */
 #include "simint.h"
 
+#include <execinfo.h>
 #include <fcntl.h>
 #include <linux/futex.h>
 #include <poll.h>
@@ -97,6 +98,7 @@ static int nontrivial;
 static char describe_buf[900];
 static char scenario_buf[64];
 static uint64_t n_preempt, n_forced, n_handoff, n_idlejump, n_fair;
+static int n_stalled;
 static uint64_t max_quiet_busy, max_quiet_ns_seen;
 
 /* named probes */
@@ -331,6 +333,8 @@ long sim_alloc_count(void) { return alloc_count; }
 
 void alloc_check(const void* addr, size_t size) {
   uint64_t a = (uint64_t)addr;
+  if ((a >> 40) == 0xFBFBFB)
+    sim_violation("MEM-poison-pointer", "dereference of %p: a pointer value read from freed or dead (poisoned) memory", addr);
   if (a - ZONE_LO >= ZONE_HI - ZONE_LO) return;
   if (a < ARENA_BASE || a + size > ARENA_BASE + ARENA_SIZE) sim_violation("MEM-wild-access", "access of %zu bytes at %p, far outside any block", size, addr);
   uint8_t s0 = shadow[(a - ARENA_BASE) >> 3], s1 = shadow[(a + size - 1 - ARENA_BASE) >> 3];
@@ -444,6 +448,11 @@ void sim_violation(const char* oracle, const char* fmt, ...) {
   vsnprintf(d, sizeof d, fmt, ap);
   va_end(ap);
   TR("VIOLATION %s: %s\n", oracle, d);
+  if (getenv("SIM_BT")) { /* diagnostics only: symbolise with addr2line -e build/h_x */
+    void* bt[24];
+    int n = backtrace(bt, 24);
+    for (int i = 0; i < n; i++) rawlog("  bt[%d] %p\n", i, bt[i]);
+  }
   finish(10, "violation", oracle, d);
 }
 void sim_finish_ok(void) { finish(0, "ok", NULL, ""); }
@@ -568,7 +577,6 @@ static int choose_next(int exclude_self) {
   if (o >= 0) record_dec(o);
   return o;
 }
-static int n_stalled;
 static void check_idle_stuck(void) {
   if (!fiber_mode || n_stalled) return;
   if (!ghost_all_maint()) return;
@@ -614,7 +622,7 @@ static void account_step(int kind) {
   g_steps++;
   T[me].tstep++;
   if (!preempt_off) now_ns += cost_ns;
-  if (!T[me].in_maint) {
+  if (!T[me].in_maint && !n_stalled) { /* steps taken while some thread is in an injected stall are not charged */
     busy_steps++;
     if (busy_steps - last_progress_busy > max_quiet_busy) max_quiet_busy = busy_steps - last_progress_busy;
     if (busy_steps - last_progress_busy > stuck_busy)
@@ -640,7 +648,8 @@ void sim_sched_point(int kind) {
   if ((fault_mask & FBIT(F_STALL)) && kind != K_SPIN) {
     uint64_t v = fault_draw(F_STALL, 20000, 18);
     if (v) {
-      uint64_t d = (1ull << v) * 1000; /* 2us .. 262ms, log-uniform */
+      uint64_t d = (1ull << v) * 1000; /* 2us .. 262ms, log-uniform ... */
+      if (d > 20000 * cost_ns) d = 20000 * cost_ns; /* ... but at most 20000 scheduling points of the others' spinning */
       n_stalled++;                     /* injected stall time is not charged to the idle liveness budget */
       T[me].st = ST_SLEEP;
       T[me].deadline = now_ns + d;
@@ -683,6 +692,15 @@ void fiber_verif_spin_hint(void) {
   if (o >= 0) {
     n_forced++;
     handoff(o);
+  } else {
+    /* nobody else can run: spinning changes nothing until the clock reaches the next wake-up */
+    uint64_t t = UINT64_MAX;
+    for (int i = 0; i < nthr; i++)
+      if (i != me) {
+        uint64_t w = wake_time(i);
+        if (w < t) t = w;
+      }
+    if (t != UINT64_MAX && t > now_ns) now_ns = t;
   }
 }
 void fiber_verif_dwcas(volatile void* location) { sim_access((const void*)location, 16, K_DWCAS); }
@@ -914,6 +932,8 @@ typedef struct {
   int inq;   /* number of run-queue slots holding it */
   int maint;
   uint32_t switch_ins;
+  uint32_t wakeups;
+  uint32_t schedules;
 } gf_t;
 static gf_t G[MAXF];
 static int ng;
@@ -955,6 +975,10 @@ int sim_fiber_dead(void* f) {
 int sim_fiber_switch_ins(void* f) {
   int i = gfind(f);
   return i >= 0 ? (int)G[i].switch_ins : 0;
+}
+int sim_fiber_wakeups(void* f) {
+  int i = gfind(f);
+  return i >= 0 ? (int)G[i].wakeups : 0;
 }
 void* sim_current_fiber(void) { return glue_current_fiber(); }
 uint64_t sim_fiber_switches(void) { return stat_fswitch; }
@@ -1043,6 +1067,7 @@ void __wrap_fiber_scheduler_schedule(void* s, void* f) {
     if (G[i].pend) sim_violation("C02-scheduled-twice", "fiber #%d made runnable while an earlier wake-up is still queued", i);
     if (G[i].g == G_DEAD) sim_violation("C02-schedule-dead", "fiber #%d scheduled after being freed", i);
     G[i].pend = 1;
+    if (G[i].schedules++ > 0 && !glue_is_yield_requeue(f)) G[i].wakeups++;
     stat_sched++;
     th(0x5C4ED000ull + i);
     TR("[%lu] t%d schedule #%d\n", g_steps, me, i);
